@@ -156,17 +156,28 @@ def make_function(orc):
 
     class NodalAndHats(Function):
         def output_length(self):
-            return 2 * orc.N + 1
+            return 2 * orc.N + 2
 
         def eval(self, coordinates):
             X = np.asarray(coordinates, dtype=float).reshape(1, orc.d)
-            return np.hstack([orc.nodal(X), orc.hats(X), smooth(X)])[0]
+            return np.hstack([orc.nodal(X), orc.hats(X), smooth(X), singular(orc, X)])[0]
 
         def eval_vectorized(self, coordinates):
             C = np.asarray(coordinates, dtype=float)
             X = C.reshape(-1, orc.d)
-            return np.hstack([orc.nodal(X), orc.hats(X), smooth(X)]).reshape(C.shape[:-1] + (2 * orc.N + 1,))
+            return np.hstack([orc.nodal(X), orc.hats(X), smooth(X), singular(orc, X)]).reshape(C.shape[:-1] + (2 * orc.N + 2,))
     return NodalAndHats()
+
+
+def singular(orc, X):
+    """last component: the smooth function again -- but, when the grids carry no boundary points, +infinity ON the boundary of the box (an integrable end-point
+    singularity such as 1/sqrt(x(1-x))): without boundary points the combination technique uses zero boundary values, so what the function does there must not
+    matter at any sparse-grid point (missed seed C02_9: mesh values multiplied by a 0/1 mask, 0 * inf = nan)"""
+    v = smooth(X)
+    if not orc.boundary:
+        onb = np.any(np.isclose(X, orc.a, rtol=0, atol=1e-13 * np.maximum(1.0, np.abs(orc.a))) | np.isclose(X, orc.b, rtol=0, atol=1e-13 * np.maximum(1.0, np.abs(orc.b))), axis=1)
+        v = np.where(onb[:, None], np.inf, v)
+    return v
 
 
 def own_count(levelvec, boundary):
@@ -291,9 +302,9 @@ def run_standard(ctx, case, tag):
     if "result" not in st:
         return
     result = st["result"]
-    ctx.check("B.hat.integral", result.shape == (2 * N + 1,) and bool(np.all(np.abs(result[N:2 * N] - orc.hat_integral) <= TOL * orc.hat_integral)),
+    ctx.check("B.hat.integral", result.shape == (2 * N + 2,) and bool(np.all(np.abs(result[N:2 * N] - orc.hat_integral) <= TOL * orc.hat_integral)),
               S_PERF, tag + "-hat-integral", "worst relative error %s" % (
-                  np.max(np.abs(result[N:2 * N] - orc.hat_integral) / orc.hat_integral) if result.shape == (2 * N + 1,) else result.shape))
+                  np.max(np.abs(result[N:2 * N] - orc.hat_integral) / orc.hat_integral) if result.shape == (2 * N + 2,) else result.shape))
 
     # ---- point-wise interpolation at all sparse-grid points and the probes
     sp = [tuple(float(v) for v in c) for c in orc.centers]
@@ -303,12 +314,16 @@ def run_standard(ctx, case, tag):
             st["vals"] = np.asarray(combi(sp + probes), dtype=float)
     if "vals" in st:
         vals = st["vals"]
-        ok_shape = vals.shape == (N + len(probes), 2 * N + 1)
+        ok_shape = vals.shape == (N + len(probes), 2 * N + 2)
         dev = np.abs(vals[:N, :N] - np.eye(N)) if ok_shape else None
         if ok_shape:
             gs = smooth(orc.centers)[:, 0]
             ctx.check("B.nodal.call", bool(np.all(np.abs(vals[:N, 2 * N] - gs) <= TOL * 2.3 ** d)), S_CALL, tag + "-arbitrary-function",
                       "smooth function not reproduced at the sparse-grid points: worst deviation %s" % np.max(np.abs(vals[:N, 2 * N] - gs)))
+            with np.errstate(invalid="ignore"):
+                okx = bool(np.all(np.abs(vals[:N, 2 * N + 1] - gs) <= TOL * 2.3 ** d))
+            ctx.check("B.nodal.call", okx, S_CALL, tag + "-function-singular-on-the-boundary",
+                      "function with infinite values on the box boundary (grids without boundary points) not reproduced at the interior sparse-grid points: %s" % vals[:N, 2 * N + 1][:6])
         ctx.check("B.nodal.call", ok_shape and bool(np.all(dev <= TOL)), S_CALL, tag + "-nodal",
                   "shape %s; worst deviation from identity %s at (point,function) %s" % (
                       vals.shape, dev.max() if ok_shape else None, np.unravel_index(np.argmax(dev), dev.shape) if ok_shape else None))
@@ -326,18 +341,20 @@ def run_standard(ctx, case, tag):
     if "gvals" in st:
         g = st["gvals"]
         T = np.array(list(itertools.product(*coords))).reshape(-1, d)          # own enumeration: first dimension slowest
-        ok_shape = g.shape == (len(T), 2 * N + 1)
+        ok_shape = g.shape == (len(T), 2 * N + 2)
         if ok_shape:
             j = orc.sparse_number(T)
             m = j >= 0
             dev = np.abs(g[m][:, :N] - np.eye(N)[j[m]])
-            dev = np.hstack([dev, np.abs(g[m][:, 2 * N:] - smooth(T[m])) / 2.3 ** d])
+            with np.errstate(invalid="ignore"):
+                dev = np.hstack([dev, np.abs(g[m][:, 2 * N:] - smooth(T[m])) / 2.3 ** d])
+                dev = np.where(np.isnan(dev), np.inf, dev)
             ctx.check("B.nodal.grid", int(m.sum()) == N and bool(np.all(dev <= TOL)), S_GRID, tag + "-nodal-grid",
                       "sparse points found in tensor grid %d of %d, worst deviation %s" % (m.sum(), N, dev.max() if dev.size else None))
             devh = np.abs(g[:, N:2 * N] - orc.hats(T))
             ctx.check("B.hat.interp", bool(np.all(devh <= TOL)), S_GRID, tag + "-hat-grid", "worst deviation %s" % devh.max())
         else:
-            ctx.check("B.nodal.grid", False, S_GRID, tag + "-grid-shape", "shape %s, expected %s" % (g.shape, (len(T), 2 * N + 1)))
+            ctx.check("B.nodal.grid", False, S_GRID, tag + "-grid-shape", "shape %s, expected %s" % (g.shape, (len(T), 2 * N + 2)))
 
     # ---- points of the component grids, coefficient sums, counts
     coeff = np.zeros(N)
